@@ -21,7 +21,8 @@ def Replica.empty : Replica K V D := { store := [], tree := Tree.empty }
 
 /-- The merge rule applied to a fetched (or written) value. -/
 inductive Merge where
-  /-- deterministic join: keep the maximum -/
+  /-- deterministic join: `Max.max old new` — the maximum of a linear order, or the join (⊔) of any
+  join-semilattice the value type carries as its `Max` instance -/
   | joinMax
   /-- the peer (or the writer) always wins -/
   | peerWins
@@ -31,10 +32,10 @@ def lookupKV [DecidableEq K] (k : K) : List (K × V) → Option V
   | [] => none
   | (k', v) :: r => if k' = k then some v else lookupKV k r
 
-def Merge.apply [LT V] [DecidableLT V] (m : Merge) (old : Option V) (new : V) : V :=
+def Merge.apply [Max V] (m : Merge) (old : Option V) (new : V) : V :=
   match m, old with
   | _, none => new
-  | .joinMax, some o => if o < new then new else o
+  | .joinMax, some o => Max.max o new
   | .peerWins, some _ => new
 
 /-- Key-ascending insert/replace (the same function the proofs use as the map semantics). -/
@@ -46,7 +47,7 @@ def storeInsert [LT K] [DecidableLT K] [DecidableEq K] (k : K) (v : V) : List (K
     else (k', v') :: storeInsert k v rest
 
 section
-variable [LT K] [LE K] [DecidableLT K] [DecidableLE K] [DecidableEq K] [LT V] [DecidableLT V]
+variable [LT K] [LE K] [DecidableLT K] [DecidableLE K] [DecidableEq K] [Max V]
 
 /-- Absorb one incoming entry: merge into the store, upsert the merged value into the tree
 (also when the merged value equals the stored one — a redundant upsert is allowed). -/
@@ -168,7 +169,7 @@ inductive SyncOp2 (K V : Type) where
   | fetchStale (recv send : Nat) (ranges : List (DR K))
 
 section
-variable [LT K] [LE K] [DecidableLT K] [DecidableLE K] [DecidableEq K] [LT V] [DecidableLT V] [DecidableEq D]
+variable [LT K] [LE K] [DecidableLT K] [DecidableLE K] [DecidableEq K] [Max V] [DecidableEq D]
 
 def syncStep2 (lvl : K → Nat) (hc : HashCfg K V D) (m : Merge) (rs : List (Replica K V D)) :
     SyncOp2 K V → Except String (List (Replica K V D))
